@@ -52,6 +52,9 @@ type Case struct {
 	// (the release path under load; see checkBulk).
 	Bulk       int `json:"bulk,omitempty"`
 	BulkRounds int `json:"bulk_rounds,omitempty"`
+	// Mid != nil: instead of Stmts the worker runs the mid-body-kill program
+	// (see mid_test.go).
+	Mid *MidCase `json:"mid,omitempty"`
 }
 
 const baseCPU = 500000000
